@@ -8,7 +8,7 @@ import ChessVerif.Proofs.SearchScoreLaws
 namespace ChessVerif
 namespace Search
 
-variable {σ π : Type}
+variable {σ π : Type} [PsInv σ]
 
 /-- what a quiescence-like function guarantees about scores (on `Good` boards, plies that cannot
     wrap the int8 counter, workable windows, sound tables). -/
@@ -27,7 +27,7 @@ theorem qAfter_range (c : Comp σ π) (L : Limits) {Good : Board → Prop} {TTok
     TTok o.2.ps ∧ (∀ x, o.1 = .ret x → o.2.aborted = false → InR x) ∧ (∀ l', o.1 = .cont l' → QInv l') := by
   simp only [qAfter]
   have hps := abort_ps L (s.setBoard (s.board.undoMove m r))
-  have hfa := @abort_false σ L (s.setBoard (s.board.undoMove m r))
+  have hfa := @abort_false σ _ L (s.setBoard (s.board.undoMove m r))
   have hat := abort_true_iff L (s.setBoard (s.board.undoMove m r))
   generalize abort L (s.setBoard (s.board.undoMove m r)) = as at hps hfa hat ⊢
   split
@@ -49,16 +49,16 @@ theorem qLoop_range (c : Comp σ π) (L : Limits) {Good : Board → Prop} {TTok 
     (hl : Laws c Good) (sl : ScoreLaws c Good TTok μ)
     (child : Score → Score → Int → St σ → Score × St σ) (hc : QSpec L Good child) (hr : QRange Good TTok μ child)
     (beta sp : Score) (hb1 : -10000 ≤ beta) (hb2 : beta ≤ 32767) (ply : Int) (hp0 : 0 ≤ ply) :
-    ∀ (moves : List (Move × Score)) (l : QLoop) (s : St σ), Good s.board →
+    ∀ (moves : List (Move × Score)) (l : QLoop) (s : St σ), Good s.board → s.board.fifty < 100 →
       (∀ mw ∈ moves, mw.1 ∈ MoveGen.gen s.board ∧ μ (s.board.makeMove c.keys mw.1).1 < μ s.board) →
       ply + (μ s.board : Int) ≤ 111 → TTok s.ps → QInv l →
       let o := qLoop c L child beta sp ply moves l s
       TTok o.2.ps ∧ (∀ x, o.1 = .ret x → o.2.aborted = false → InR x) ∧ (∀ l', o.1 = .done l' → QInv l') := by
   intro moves
   induction moves with
-  | nil => intro l s _ _ _ htt hq; exact ⟨htt, (fun x h => by cases h), fun l' h => by cases h; exact hq⟩
+  | nil => intro l s _ _ _ _ htt hq; exact ⟨htt, (fun x h => by cases h), fun l' h => by cases h; exact hq⟩
   | cons mw rest ih =>
-    intro l s hg hm hpl htt hq
+    intro l s hg hfl hm hpl htt hq
     obtain ⟨m, w⟩ := mw
     have hmem : m ∈ MoveGen.gen s.board := (hm (m, w) List.mem_cons_self).1
     have hmu : μ (s.board.makeMove c.keys m).1 < μ s.board := (hm (m, w) List.mem_cons_self).2
@@ -69,19 +69,22 @@ theorem qLoop_range (c : Comp σ π) (L : Limits) {Good : Board → Prop} {TTok 
     split
     · exact ⟨htt, (fun x h => by cases h), fun l' h => by cases h; exact hq⟩
     · split
-      · rw [hu, setBoard_self]; exact ih l s hg hrest hpl htt hq
+      · rw [hu, setBoard_self]; exact ih l s hg hfl hrest hpl htt hq
       · next hchk =>
         split
         · rw [hu, setBoard_self]; exact ⟨htt, (fun x h => by cases h), fun l' h => by cases h; exact hq⟩
         · have hchk' : (s.board.makeMove c.keys m).1.inCheck s.board.stm = false := by simpa using hchk
-          have hg' := hl.good_make s.board m hg hmem hchk'
+          have hg' := hl.good_make s.board m hg hfl hmem hchk'
           have hw : wrapS8 (ply + 1) = ply + 1 := by unfold wrapS8; omega
           have hwin : WinOK (neg beta) (neg l.alpha) := winOK_full hq.1 hq.2.1 hb1 hb2
-          have hcs := hc (neg beta) (neg l.alpha) (wrapS8 (ply + 1)) (s.setBoard (s.board.makeMove c.keys m).1) hg'
+          have hcs := hc (neg beta) (neg l.alpha) (wrapS8 (ply + 1)) (s.setBoard (s.board.makeMove c.keys m).1) hg' (sl.tt_ok _ htt)
           have hrs := hr (neg beta) (neg l.alpha) (wrapS8 (ply + 1)) (s.setBoard (s.board.makeMove c.keys m).1) hg'
             (by rw [hw]; omega) (by rw [hw]; simp only [setBoard_board]; omega) hwin htt
           generalize child (neg beta) (neg l.alpha) (wrapS8 (ply + 1)) (s.setBoard (s.board.makeMove c.keys m).1) = r at hcs hrs ⊢
-          have ha := qAfter_spec c L beta ply m (s.board.makeMove c.keys m).2 l r.1 r.2
+          have hub : r.2.board.undoMove m (s.board.makeMove c.keys m).2 = s.board := by
+            rw [hcs.1.board]; simpa using hu
+          have ha := qAfter_spec c L hl beta ply m (s.board.makeMove c.keys m).2 l r.1 r.2
+            (by rw [hub]; exact hg) (by rw [hub]; exact hmem)
           have har := qAfter_range c L sl beta ply m (s.board.makeMove c.keys m).2 l r.1 r.2 hrs.1 hrs.2 hq
           simp only at ha har
           generalize qAfter c L beta ply m (s.board.makeMove c.keys m).2 l r.1 r.2 = o at ha har ⊢
@@ -98,7 +101,8 @@ theorem qLoop_range (c : Comp σ π) (L : Limits) {Good : Board → Prop} {TTok 
           | brk l' => exact absurd rfl (hnb l')
           | cont l' =>
             simp only at hboard htt' ⊢
-            exact ih l' s' (by rw [hboard]; exact hg) (by rw [hboard]; exact hrest) (by rw [hboard]; exact hpl) htt'
+            exact ih l' s' (by rw [hboard]; exact hg) (by rw [hboard]; exact hfl) (by rw [hboard]; exact hrest)
+              (by rw [hboard]; exact hpl) htt'
               (hcont l' rfl)
 
 theorem ttCut_inR {e : TTHit} {a b v : Score} (he : InR e.value) (h : ttCut e a b = some v) : InR v := by
@@ -116,7 +120,7 @@ theorem qBody_range (c : Comp σ π) (L : Limits) {Good : Board → Prop} {TTok 
     (hl : Laws c Good) (sl : ScoreLaws c Good TTok μ)
     (child : Score → Score → Int → St σ → Score × St σ) (hc : QSpec L Good child) (hr : QRange Good TTok μ child)
     (alpha beta : Score) (hw : WinOK alpha beta) (ply : Int) (hp0 : 0 ≤ ply) (s : St σ) (hg : Good s.board)
-    (hpl : ply + (μ s.board : Int) ≤ 111) (htt : TTok s.ps) :
+    (hfl : s.board.fifty < 100) (hpl : ply + (μ s.board : Int) ≤ 111) (htt : TTok s.ps) :
     let o := qBody c L child alpha beta ply s
     TTok o.2.ps ∧ (o.2.aborted = false → InR o.1) := by
   simp only [qBody]
@@ -138,7 +142,7 @@ theorem qBody_range (c : Comp σ π) (L : Limits) {Good : Board → Prop} {TTok 
             ⟨le_max_of hw1, max_le_of hw2 hse.2, hse⟩
           have h := qLoop_range c L hl sl child hc hr beta (evaluate c s.board) hw3 hw4 ply hp0
             (c.qMoves s.ps s.board s.hstack)
-            { alpha := max alpha (evaluate c s.board), maxim := evaluate c s.board } s.pushFrame hg
+            { alpha := max alpha (evaluate c s.board), maxim := evaluate c s.board } s.pushFrame hg hfl
             (fun mw hmw => ⟨hl.q_mem s.ps s.board s.hstack mw.1 mw.2 hg hmw,
               sl.q_measure s.ps s.board s.hstack mw.1 mw.2 hg hmw⟩) hpl htt hq0
           simp only at h
@@ -170,8 +174,9 @@ theorem quiescence_range (c : Comp σ π) (L : Limits) {Good : Board → Prop} {
     · next hab => exact ⟨by rw [hps]; exact htt, fun hna => by rw [← hat, hab] at hna; cases hna⟩
     · split
       · exact ⟨by rw [hps]; exact htt, fun _ => inR_zero⟩
-      · exact qBody_range c L hl sl (quiescence c L fuel) (quiescence_spec c L hl fuel) ih a b hw p hp0 as.2
-          (by rw [h12.board]; exact hg) (by rw [h12.board]; exact hpl) (by rw [hps]; exact htt)
+      · next hnd =>
+        exact qBody_range c L hl sl (quiescence c L fuel) (quiescence_spec c L hl fuel) ih a b hw p hp0 as.2
+          (by rw [h12.board]; exact hg) (fifty_lt_of_not_draw hnd) (by rw [h12.board]; exact hpl) (by rw [hps]; exact htt)
 
 end Search
 end ChessVerif
